@@ -1,4 +1,5 @@
 import DriverLib.Basic
+import DriverLib.ArgConv
 import DriverLib.C03
 import DriverLib.C05
 import QV.Model.CDStep
@@ -179,6 +180,7 @@ def handle (op : String) (j : Json) : Option (R Json) :=
   | "c06.cdstep" => some (cdStepOp j)
   | "c06.run" => some (runOp j)
   | "c06.bind" => some (Drv.CallForm.bindOp j)
+  | "c06.vector_to_grads" => some (Drv.ArgConv.vectorToGradsOp j)
   | _ => none
 
 end Drv.C06
